@@ -74,6 +74,15 @@ def run(tier, seed):
         for v in (['-O3'], ['-O3', '--max-shortcircuit-fallthrough', '0'], ['-O3', '--max-shortcircuit-action-penalty', '100'],
                   ['-O3', '--max-shortcircuit-action-penalty', '0', '--max-shortcircuit-fallthrough', '100'], ['-O0', '-fshortcircuit-fallthroughs']):
             items.append(('actloop:%d|%s' % (sd, ' '.join(v)), src, v))
+    # bounded-exhaustive family: every small program at -O0 against -O3 (and -O1 / -O2 alternating)
+    from props import enumfam
+    e_items, e_asts, e_info = enumfam.slice_(tier, seed, scale=2 if quick else 1)
+    for j, (name, src, args) in enumerate(e_items):
+        extra = [a for a in args if not a.startswith('-O')]
+        items.append((name + '|O0', src, ['-O0'] + extra))
+        items.append((name + '|O3', src, ['-O3'] + extra))
+        if j % 4 == 0:
+            items.append((name + '|O%d' % (1 + j // 4 % 2), src, ['-O%d' % (1 + j // 4 % 2)] + extra))
     progs = runner.compile_programs(items, want=('machine', 'codegen'))
     by_src = collections.OrderedDict()
     for p in progs:
@@ -145,7 +154,7 @@ def run(tier, seed):
         'states': st['states'] + cst['states'], 'transitions': st['transitions'] + cst['transitions'], 'traces_validated_against_impl': len(pairs) + cst['accepted'],
         'binaries_swept': cst['binaries'], 'single_step_sweeps': cst['sweeps'],
         'samples': [{'program': c['a'].name, 'args_a': c['a'].args, 'args_b': c['b'].args, 'symbols': c['syms'], 'max_input_length': c['maxlen']} for c in cases[:3]],
-        'machine_pairs': len(pairs), 'variants': vs, 'report_kinds': dict(kinds), 'verdict_differences': verdict_diff, 'exhaustive': False,
+        'machine_pairs': len(pairs), 'enumerated_family': enumfam.describe(e_info), 'variants': vs, 'report_kinds': dict(kinds), 'verdict_differences': verdict_diff, 'exhaustive': False,
         'rule': 'product search of (-O0 machine, optimised machine) over one representative per joint symbol cell up to the length bound; event streams compared with one-symbol slack',
     }
     chk.assumptions = ['the $last value observed by a hook is not compared (the property allows it to shift by one position)', 'the emitted C executes the exported machine: swept here for a subset of the optimised binaries, decided in general by C06']
